@@ -171,7 +171,7 @@ Definition lookup_keys (g : cfg) (iss : option pystr) (k : kty) (kid : option na
                      | Some n => filter (Nat.eqb n) ks
                      | None => match ks with [x] => [x] | _ => [] end
                      end in
-          Some (sel ++ match k with KOct => own_keys (jar g) KOct | _ => [] end)
+          Some (List.app sel (match k with KOct => own_keys (jar g) KOct | _ => [] end))
       end
   | None => Some (own_keys (jar g) k)
   end.
@@ -189,8 +189,10 @@ Inductive fres :=
 | FIssuerNotFound | FMissingKey | FNoSuitable | FBadSig.
 
 (* objects that carry a nested request / request_uri / id_token_hint / prompt are outside the modelled fragment *)
+Fixpoint nodup_keys (c : params) : bool :=
+  match c with [] => true | kv :: r => negb (has_key (fst kv) r) && nodup_keys r end.
 Definition claims_modelled (c : params) : bool :=
-  negb (has_key k_request c) && negb (has_key k_request_uri c) && negb (has_key k_id_token_hint c)
+  nodup_keys c && negb (has_key k_request c) && negb (has_key k_request_uri c) && negb (has_key k_id_token_hint c)
   && negb (has_key k_prompt c) && negb (has_key k_authenticated c).
 
 (* Message.from_jwt *)
@@ -431,7 +433,7 @@ Definition simple_uri (u : pystr) : bool :=
   && negb (starts_with (PS "/") (skipn 8 u)).
 
 (* get_uri(context, request, "redirect_uri", endpoint_type) *)
-Definition get_uri (g : cfg) (r : req) : res pystr + outcome :=
+Definition get_uri (g : cfg) (r : req) : pystr + outcome :=
   match assoc k_redirect_uri (r_params r) with
   | Some (PS_ u) =>
       match get_s k_client_id (r_params r) with
@@ -442,8 +444,8 @@ Definition get_uri (g : cfg) (r : req) : res pystr + outcome :=
           | Some ci =>
               if negb (simple_uri u && forallb simple_uri (c_redirect ci)) then inr OUnmodelled
               else match c_redirect ci with
-                   | [] => if oidc g then inr (ErrResp e_invalid_request d_redirect (err_state r)) else inl (Ok u)
-                   | l => if str_in u l then inl (Ok u) else inr (ErrResp e_invalid_request d_redirect (err_state r))
+                   | [] => if oidc g then inr (ErrResp e_invalid_request d_redirect (err_state r)) else inl u
+                   | l => if str_in u l then inl u else inr (ErrResp e_invalid_request d_redirect (err_state r))
                    end
           end
       end
@@ -456,7 +458,7 @@ Definition get_uri (g : cfg) (r : req) : res pystr + outcome :=
           match find_client (clients g) c with
           | None => inr (Exc x_unknown_client)
           | Some ci => match c_redirect ci with
-                       | [u] => inl (Ok u)
+                       | [u] => inl u
                        | _ => inr (ErrResp e_invalid_request d_param (err_state r))
                        end
           end
@@ -484,8 +486,7 @@ Definition post_parse (g : cfg) (r : req) (cid : option pystr) : outcome :=
           let registered := match c_rtypes ci with [] => [[PS "code"]] | l => l end in
           if negb (existsb (set_eqb rt) registered) then ErrResp e_invalid_request d_rtype (err_state r) else
           match get_uri g r with
-          | inl (Ok u) => Acc {| r_params := aset k_redirect_uri (PS_ u) (r_params r); r_vr := r_vr r |}
-          | inl _ => OUnmodelled
+          | inl u => Acc {| r_params := aset k_redirect_uri (PS_ u) (r_params r); r_vr := r_vr r |}
           | inr o => o
           end
       end
@@ -572,7 +573,7 @@ Definition par_parse (g : cfg) (st : state) (pusher : pystr) (body : params) (w 
       end
   end.
 
-Inductive pushres := PUrn (expires_in : Z) | PExc (tag : N) | PNone | PUnmodelled.
+Inductive pushres := PUrn (expires_in : Z) | PStoredExc (tag : N) | PExc (tag : N) | PNone | PUnmodelled.
 (* process_request: AuthorizationRequest(**request).verify() = strict merge again; store under the urn *)
 Definition par_process (g : cfg) (st : state) (r : req) (w : option wobj) (urn : pystr) : state * pushres :=
   let stored :=
@@ -592,7 +593,7 @@ Definition par_process (g : cfg) (st : state) (r : req) (w : option wobj) (urn :
   match stored with
   | Acc s =>
       let st' := {| par_db := aset urn {| e_req := s; e_exp := now st + ttl g |} (par_db st); now := now st |} in
-      if has_key k_redirect_uri (r_params s) then (st', PUrn (ttl g)) else (st', PExc x_key)
+      if has_key k_redirect_uri (r_params s) then (st', PUrn (ttl g)) else (st', PStoredExc x_key)
   | Exc t => (st, PExc t)
   | AnyRefusal => (st, PExc 0)
   | _ => (st, PUnmodelled)
